@@ -12,11 +12,11 @@ open AlgoVerif AlgoVerif.Gram AlgoVerif.C08
 
 /-! ## structural predicates -/
 
-/-- the only ε-production allowed is `S′ → ε` for a start symbol `S′` that is not the input's start symbol
-and occurs in no body -/
+/-- the only ε-production allowed is `S′ → ε` for a start symbol `S′` that is a new name (not a declared
+non-terminal of the input; in particular not its start symbol) and occurs in no body -/
 def NoEmptyExceptFreshStart (orig g : G) : Prop :=
   ∀ p ∈ g.prods, p.body = [] →
-    p.head = g.start ∧ g.start ≠ orig.start ∧ ∀ q ∈ g.prods, Sym.nonterm g.start ∉ q.body
+    p.head = g.start ∧ g.start ∉ orig.nonterms ∧ ∀ q ∈ g.prods, Sym.nonterm g.start ∉ q.body
 
 instance (orig g : G) : Decidable (NoEmptyExceptFreshStart orig g) := by
   unfold NoEmptyExceptFreshStart; infer_instance
